@@ -8,6 +8,8 @@ package main
 import (
 	"bytes"
 	"encoding/json"
+	"reflect"
+	"sort"
 
 	"github.com/mfcochauxlaberge/jsonapi"
 )
@@ -98,6 +100,189 @@ func runDupCase(c dupCase) dupEvent {
 				if ev.Same {
 					ev.Out = project(b) // what is looked at is a result that differs, if any does
 				}
+				ev.Same = false
+			}
+		}
+	})
+	if p {
+		ev.Ret = "panic"
+	}
+	return ev
+}
+
+// Field names that a query string must escape ("full name", "a+b", "50%"): one URL object serves
+// several documents in a row.  What each payload exposes, whether the URL still says what it was
+// given, and what comes back from the payload are data of the event (Document.tla: OddOK).
+
+type oddCase struct {
+	Fam    string   `json:"fam"`
+	Mode   string   `json:"mode"` // oddname
+	Impl   string   `json:"impl"`
+	Sel    []string `json:"sel"`
+	Before bool     `json:"before"` // the URL is printed once before the first document is marshaled
+}
+
+type oddEvent struct {
+	Ev     string     `json:"ev"`
+	Impl   string     `json:"impl"`
+	Sel    []string   `json:"sel"`
+	Outs   [][]string `json:"outs"`    // the attribute names of the three payloads
+	Frame  bool       `json:"frameok"` // the URL's selection is what it was given, name by name
+	Back   bool       `json:"back_same"`
+	Stable bool       `json:"stable"` // the same document and URL: the same bytes
+	Ret    string     `json:"ret"`
+}
+
+var oddFields = defMap{"full name": {Kind: "attr", K: "string"}, "a+b": {Kind: "attr", K: "string"}, "50%": {Kind: "attr", K: "int"}, "k": {Kind: "attr", K: "string"}}
+
+func oddCases() []oddCase {
+	var out []oddCase
+	names := []string{"50%", "a+b", "full name", "k"}
+	for m := 0; m < 16; m++ {
+		for _, impl := range []string{"soft", "wrap"} {
+			c := oddCase{Fam: "doc", Mode: "oddname", Impl: impl, Sel: []string{}, Before: m%3 == 0}
+			for i, n := range names {
+				if m&(1<<i) != 0 {
+					c.Sel = append(c.Sel, n)
+				}
+			}
+			out = append(out, c)
+		}
+	}
+	return out
+}
+
+func runOddCase(c oddCase) oddEvent {
+	ev := oddEvent{Ev: "oddname", Impl: c.Impl, Sel: c.Sel, Outs: [][]string{}, Frame: true, Back: true, Stable: true, Ret: "ok"}
+	p, _ := catch(func() {
+		schema := &jsonapi.Schema{}
+		if c.Impl == "wrap" {
+			typ, err := jsonapi.BuildType(reflect.New(structType("tn", oddFields, kindMap{})).Interface())
+			must(err)
+			must(schema.AddType(typ))
+		} else {
+			must(schema.AddType(*softType("tn", oddFields, kindMap{})))
+		}
+		url, err := jsonapi.NewURLFromRaw(schema, "/tn/x")
+		must(err)
+		url.Params.Fields = map[string][]string{"tn": append([]string{}, c.Sel...)}
+		if c.Before {
+			_ = url.String()
+		}
+		var prev []byte
+		for i := 0; i < 3; i++ {
+			res := newRes(c.Impl, "tn", oddFields, kindMap{})
+			res.Set("id", "x")
+			res.Set("full name", "Ann Lee")
+			res.Set("a+b", "sum")
+			res.Set("50%", 50)
+			res.Set("k", "v")
+			payload, err := jsonapi.MarshalDocument(&jsonapi.Document{Data: res}, url)
+			must(err)
+			if prev != nil && !bytes.Equal(prev, payload) {
+				ev.Stable = false
+			}
+			prev = payload
+			var top struct {
+				Data struct {
+					Attributes map[string]json.RawMessage `json:"attributes"`
+				} `json:"data"`
+			}
+			must(json.Unmarshal(payload, &top))
+			ev.Outs = append(ev.Outs, sortedKeys(top.Data.Attributes))
+			if !reflect.DeepEqual(url.Params.Fields, map[string][]string{"tn": c.Sel}) && !(len(c.Sel) == 0 && len(url.Params.Fields["tn"]) == 0) {
+				got := append([]string{}, url.Params.Fields["tn"]...)
+				want := append([]string{}, c.Sel...)
+				sort.Strings(got)
+				sort.Strings(want)
+				if !reflect.DeepEqual(got, want) { // (the order of names may change, nothing else)
+					ev.Frame = false
+				}
+			}
+			doc, err := jsonapi.UnmarshalDocument(payload, schema)
+			if err != nil {
+				ev.Back = false
+				continue
+			}
+			back, _ := doc.Data.(jsonapi.Resource)
+			want := map[string]any{"full name": "Ann Lee", "a+b": "sum", "50%": 50, "k": "v"}
+			for _, n := range c.Sel {
+				if back == nil || back.Get(n) != want[n] {
+					ev.Back = false
+				}
+			}
+		}
+	})
+	if p {
+		ev.Ret = "panic"
+	}
+	return ev
+}
+
+// Included resources whose ids are distinct but whose type and id, written one after the other, read
+// alike ("7" of type "blog posts" and "7 blog" of type "posts"; "ab" of type "c" and "a" of type
+// "bc"): the payload does not depend on the order in which they were included (all ids of a case are
+// distinct: equal ids are what the property exempts).
+
+type tieCase struct {
+	Fam   string      `json:"fam"`
+	Mode  string      `json:"mode"` // tie
+	Pairs [][2]string `json:"pairs"`
+	Sep   string      `json:"sep"` // how the two texts are put together to read alike (documentation only)
+}
+
+type tieEvent struct {
+	Ev   string `json:"ev"`
+	Sep  string `json:"sep"`
+	N    int    `json:"n"`
+	Same bool   `json:"same"`
+	Both bool   `json:"both_there"` // every included resource is in every payload
+	Ret  string `json:"ret"`
+}
+
+func tieCases() []tieCase {
+	return []tieCase{
+		{Fam: "doc", Mode: "tie", Sep: "space", Pairs: [][2]string{{"blog posts", "7"}, {"posts", "7 blog"}}},
+		{Fam: "doc", Mode: "tie", Sep: "space", Pairs: [][2]string{{"posts", "7 blog"}, {"blog posts", "7"}, {"c", "7 "}}},
+		{Fam: "doc", Mode: "tie", Sep: "none", Pairs: [][2]string{{"c", "ab"}, {"bc", "a"}}},
+		{Fam: "doc", Mode: "tie", Sep: "none", Pairs: [][2]string{{"bc", "a"}, {"c", "ab"}, {"posts", "abc"}}},
+		{Fam: "doc", Mode: "tie", Sep: "slash", Pairs: [][2]string{{"c", "x/bc"}, {"bc", "x/c"}, {"c/x", "bc"}}},
+		{Fam: "doc", Mode: "tie", Sep: "reversed", Pairs: [][2]string{{"c", "bc"}, {"bc", "c"}}},
+	}
+}
+
+func runTieCase(c tieCase) tieEvent {
+	ev := tieEvent{Ev: "tie", Sep: c.Sep, N: len(c.Pairs), Same: true, Both: true, Ret: "ok"}
+	p, _ := catch(func() {
+		schema := &jsonapi.Schema{}
+		for _, name := range []string{"main", "posts", "blog posts", "c", "bc", "c/x"} {
+			must(schema.AddType(*softType(name, defMap{"a": {Kind: "attr", K: "string"}}, kindMap{})))
+		}
+		url, err := jsonapi.NewURLFromRaw(schema, "/main/x")
+		must(err)
+		var first []byte
+		for _, perm := range permutations(len(c.Pairs)) {
+			prim := newRes("soft", "main", defMap{"a": {Kind: "attr", K: "string"}}, kindMap{})
+			prim.Set("id", "x")
+			doc := &jsonapi.Document{Data: prim}
+			for _, i := range perm {
+				r := &jsonapi.SoftResource{Type: softType(c.Pairs[i][0], defMap{"a": {Kind: "attr", K: "string"}}, kindMap{})}
+				r.SetID(c.Pairs[i][1])
+				r.Set("a", c.Pairs[i][0]+"|"+c.Pairs[i][1])
+				doc.Include(r)
+			}
+			payload, err := jsonapi.MarshalDocument(doc, url)
+			must(err)
+			var top struct {
+				Included []json.RawMessage `json:"included"`
+			}
+			must(json.Unmarshal(payload, &top))
+			if len(top.Included) != len(c.Pairs) {
+				ev.Both = false
+			}
+			if first == nil {
+				first = payload
+			} else if !bytes.Equal(first, payload) {
 				ev.Same = false
 			}
 		}
